@@ -9,3 +9,5 @@ import PV.Model.SCC
 import PV.Properties.C11
 import PV.Model.Grouping
 import PV.Properties.C10
+import PV.Model.TED
+import PV.Properties.C07
